@@ -56,6 +56,15 @@ Lead == { N("Product", << L, Sm, Sm >>), N("Product", << Sm, L, Sm >>), N("Produ
           N("Product", << L, Sm, L, Sm >>), N("Product", << L, Sm, Sm, Sm >>),
           N("Sum", << N("Product", << L, Sm, Sm >>), L >>), B("Power", N("Product", << L, Sm, Sm >>), KI(2)) }
 
+\* operands that LOOK like zero to a truth test but are not zero: a power of a zero-like base with
+\* a zero (or possibly zero) exponent is 1; next to them the operands that really are zero
+ZeroLike == { B("Power", KI(0), KI(0)), B("Power", N("Product", << KI(0), x >>), KI(0)),
+              B("Power", B("Quotient", KI(0), x), KI(0)),      \* (0**y with a symbolic exponent is C03-F1's)
+              N("Sum", << KI(0) >>), N("Product", << KI(0), x >>), B("Quotient", KI(0), x) }
+ZeroLikeRoots == UNION { { N("Sum", << x, f >>), N("Product", << x, f >>), N("Sum", << KI(2), x, f >>),
+                           N("Product", << KI(2), x, KI(3), f >>), N("Product", << f, x, N("Sum", << y, KI(1) >>) >>),
+                           N("Sum", << f, f >>), B("Power", N("Sum", << x, f >>), KI(2)) } : f \in ZeroLike }
+
 PoolFor(ty) ==
     CASE ty = "sum" -> { N("Sum", << x, KI(1) >>), N("Sum", << y, pp >>), N("Sum", << x, KI(-1), y >>), x }
       [] ty = "any"   -> Leaves \cup (IF Tier = "quick" THEN D1Q ELSE D1)
@@ -72,7 +81,7 @@ FirstHoleTy(e) ==
                       LET r == FirstHoleTy(ks[i]) IN IF r # "" THEN r ELSE Go(i + 1)
          IN Go(1)
 
-Roots == Mid(A) \cup Other(A) \cup Top(M) \cup Collapse(A) \cup Lead \cup Leaves \cup D1
+Roots == Mid(A) \cup Other(A) \cup Top(M) \cup Collapse(A) \cup Lead \cup ZeroLikeRoots \cup Leaves \cup D1
 Init == tree \in Roots
 Next == /\ NHoles(tree) > 0
         /\ \E s \in PoolFor(FirstHoleTy(tree)) : tree' = FillFirst(tree, s)
